@@ -584,6 +584,45 @@ def make_transformer(V, kind):
     return cls()
 
 
+def context_probe(T, V, tree):
+    """a PathTrackingTransformer with track_parents and track_new_parents whose default handler records the
+    context it is given: parents = the ancestors (input objects) of the node, new_parents = the copies of those
+    ancestors, i.e. the objects found along the same path in the RETURNED tree"""
+    seen = []
+
+    class Probe(V.PathTrackingTransformer):
+        def generic_visit(self, node, context):
+            seen.append((node, tuple(context.get("path", ())), tuple(context.get("parents", ())),
+                         tuple(context.get("new_parents", ()))))
+            yield from super().generic_visit(node, context)
+    try:
+        new = Probe(track_parents=True, track_new_parents=True).visit(tree)
+    except Exception as e:  # noqa
+        return "probe transformer raised %r" % (e,)
+
+    def chain(root, path):
+        out, n = [], root
+        for i in path:
+            out.append(n)
+            n = n.children[i]
+        return out, n
+    for node, path, parents, new_parents in seen:
+        try:
+            anc_in, at_in = chain(tree, path)
+            anc_out, _ = chain(new, path)
+        except Exception:  # noqa
+            return "path %r does not exist in the input / output" % (path,)
+        if at_in is not node:
+            return "the path %r given to the handler does not lead to the node it was given" % (path,)
+        if len(parents) != len(anc_in) or any(a is not b for a, b in zip(parents, anc_in)):
+            return "context['parents'] at %r is not the chain of ancestors (%d instead of %d)" % (
+                path, len(parents), len(anc_in))
+        if len(new_parents) != len(anc_out) or any(a is not b for a, b in zip(new_parents, anc_out)):
+            return "context['new_parents'] at %r is not the chain of the ancestors' copies (%d objects, %d expected)" % (
+                path, len(new_parents), len(anc_out))
+    return None
+
+
 def copies(T, V, r, n, res, stats):
     g = gentree.Gen(r, T, layout=0.5, odd=0.15, positions=0.4)
     w = T.Word("s", tail=" ")
@@ -635,6 +674,14 @@ def copies(T, V, r, n, res, stats):
             tr = make_transformer(V, kind)
             stats["transformers"][kind] = stats["transformers"].get(kind, 0) + 1
             steps.append("%s transformer copies %s" % (kind, desc[:300]))
+            # the transformer's own context options: with track_parents / track_new_parents a handler is told the
+            # true chain of ancestors of the node in the INPUT and the chain of their COPIES in the output
+            if idx % 3 == 0:
+                why_ctx = context_probe(T, V, tree)
+                if why_ctx:
+                    res.failures.append(({"kind": "transformer context", "why": why_ctx, "history": list(steps),
+                                          "tree_now": desc}, None))
+                stats["context_probes"] = stats.get("context_probes", 0) + 1
             try:
                 new = tr.visit(tree)
             except Exception as e:
